@@ -46,11 +46,11 @@ CLAIMED = {
              'no DerefMut/AsMut/BorrowMut/IndexMut, no public storage field, no &mut of the stored text in safe code. Preservation: every symbolic path (102) of the component setters of the four '
              'owned RI types is turned into the regular set of results it can produce over ALL buffers and ALL arguments and checked ⊆ L(O) (exact automata inclusion, with counterexample); '
              'authority handle: window accounting, tiling, no underflow on all paths; from_scheme lemma; scanner Err positions used as insertion points and the guard predicates '
-             '(looks_like_scheme, first_segment_has_colon, has-scheme) verified against the scanner MIR.',
+             '(looks_like_scheme, first_segment_has_colon, has-scheme) verified against the scanner MIR; splice primitives (D0).',
         design_ref='DESIGN.md §3 Engine D (D1–D3), Engine C (C-sites, C-gate), §4 C04',
         note='Path handle: every path of push/pop/clear/normalize/make_root (in place for the four RI owners, stand-alone for both path types) is closed under L(O) too (virtual cut markers; normalize content over-approximated); composites (symbolic_push/append, PathBuf wrappers, resolve, relative_to) contain no storage access of their own and inherit the invariant. '
              '"No call panics" is decided for what the affine/automata domains see (bounds of splices, tiling lengths, usize underflow, scanner assertions). Genuine defect F6 was repaired by a fix: commit; '
-             'the four non-closed paths are reported with witness ":" on the pre-fix tree. Trusted: utils::replace/allocate_range summaries, std Vec/slice contracts.',
+             'the four non-closed paths are reported with witness ":" on the pre-fix tree. The summaries of utils::allocate_range / utils::replace that all window and closure analyses (C04, C05, C09, C10, C11) rest on are themselves decided (Engine D0, iv/copyloop.py): copy loops never read an overwritten element, move exactly the tail, stay in bounds, resize to start+len+tail in the right order. Trusted: std Vec/slice contracts (resize, copy_from_slice, indexing).',
         technique='path-sensitive effect analysis of MIR (abstract interpretation, affine domain, all CFG paths) + regular language closure on the marked grammar automaton + unsafe-site table (static analysis)',
         engine='D+A+B+C',
     ),
@@ -244,7 +244,10 @@ CLAIMED = {
 NOT_YET = 'engine for this property is not built yet in this round (see DESIGN.md §9 delivery order); not claimed until its check exists and passes'
 
 NA = {
-    'C15': 'round-trip equality between run-time values computed by two stack algorithms; no static argument in reach (DESIGN.md §5); its structural clause is checked under C04/C13',
+    'C15': 'the statement is a round-trip EQUALITY between run-time values computed by two stack algorithms (relative_to, then resolve) over pairs of inputs; no static argument in reach decides it (DESIGN.md §5). '
+           'Its side clauses are covered elsewhere: the result is a valid reference (built from Default + the mutators verified under C04, or an unchecked copy of self whose inclusion is a C01/C13 site obligation), '
+           'and the percent-decoding panic of relative_to found while looking for a decidable clause was reported by C19 and fixed (F11, DESIGN.md §10.8). A seeded change for C15 is kept (seeded/C15-…) and is, as expected, not reported; '
+           'the seeding agent also measured that the unchanged tree fails the round trip on 16 500 of 90 000 enumerated pairs (DESIGN.md §10.9) — not applicable must not be read as holds',
 }
 
 
